@@ -270,10 +270,18 @@ class Extractor:
         self._escaped = {}
         self._fresh = set()
         self._aliased = None
+        self._guards = []                 # attribute names read by the enclosing if / conditional-expression tests
+        self.rng_guard = None             # attribute whose test licenses a draw from the global generator (q0 for ROLEQ)
 
     # ---- global state reachable from a function / class of the package (Glob atoms only) -------------------
-    def globs_of(self, mod: Module, node, depth=0):
-        key = (mod.relpath, getattr(node, 'name', id(node)), isinstance(node, ast.ClassDef))
+    @staticmethod
+    def _dataless(call):
+        """a constructor call that hands over no sensor data (no positional argument, no gyr/acc/mag keyword) does not run _compute_all"""
+        return not call.args and not any(k.arg is None or k.arg in DATA_PARAMS for k in call.keywords)
+
+    def globs_of(self, mod: Module, node, depth=0, dataless=False):
+        key = (mod.relpath, getattr(node, 'name', id(node)), isinstance(node, ast.ClassDef), dataless)
+        self._skip_compute_all = getattr(self, '_skip_compute_all', 0)
         if key in self._glob_memo:
             return self._glob_memo[key]
         self._glob_memo[key] = set()          # cut recursion
@@ -283,7 +291,9 @@ class Extractor:
         if isinstance(node, ast.ClassDef):
             init = next((f for f in node.body if isinstance(f, ast.FunctionDef) and f.name == '__init__'), None)
             if init is not None:
+                self._skip_compute_all += 1 if dataless else 0
                 out |= self._globs_body(mod, init, node, depth)
+                self._skip_compute_all -= 1 if dataless else 0
         else:
             out |= self._globs_body(mod, node, None, depth)
         self._glob_memo[key] = out
@@ -312,7 +322,13 @@ class Extractor:
                 if isinstance(f, ast.Name):
                     r = mod.resolve(f.id)
                     if r:
-                        out |= self.globs_of(r[0], r[1], depth + 1)
+                        out |= self.globs_of(r[0], r[1], depth + 1, dataless=isinstance(r[1], ast.ClassDef) and self._dataless(n))
+                elif isinstance(f, ast.Attribute) and isinstance(f.value, ast.Call) and isinstance(f.value.func, ast.Name):
+                    r = mod.resolve(f.value.func.id)
+                    if r and isinstance(r[1], ast.ClassDef):
+                        meth = next((g for g in r[1].body if isinstance(g, ast.FunctionDef) and g.name == f.attr), None)
+                        if meth is not None:
+                            out |= self._globs_of_method(r[0], r[1], meth, depth + 1)
                 elif isinstance(f, ast.Attribute) and isinstance(f.value, ast.Name):
                     if f.value.id in local_types:
                         m2, c2 = local_types[f.value.id]
@@ -320,6 +336,8 @@ class Extractor:
                         if meth is not None:
                             out |= self._globs_of_method(m2, c2, meth, depth + 1)
                     elif f.value.id == 'self' and f.attr in methods and cls is not self.cls:
+                        if f.attr == COMPUTE_ALL and getattr(self, '_skip_compute_all', 0):
+                            continue
                         out |= self._globs_of_method(mod, cls, methods[f.attr], depth + 1)
         return out
 
@@ -468,11 +486,36 @@ class Extractor:
             return True
         return isinstance(v, (ast.BinOp, ast.UnaryOp, ast.Constant, ast.List, ast.Tuple, ast.ListComp, ast.Dict, ast.Compare))
 
+    def _g(self, g):
+        """name of a global-state atom at the current program point: a draw from the NumPy global generator that is not under a test of
+        the licensing attribute (`self.q0 is None`) is a different, never-allowed atom"""
+        if g == 'np.random' and self.rng_guard and not any(self.rng_guard in t for t in self._guards):
+            return 'np.random:unguarded'
+        return g
+
+    @staticmethod
+    def _attrs_in(test):
+        out = set()
+        for n in ast.walk(test):
+            if _self_attr(n):
+                out.add(n.attr)
+            elif isinstance(n, ast.Call):
+                d = _dyn_attr(n)
+                if d:
+                    out.add(d[1])
+        return out
+
     # ---- expression -> list of commands, in evaluation order (approximately) -------------------------------
     def expr(self, e, ltypes):
         if e is None:
             return []
         out = []
+        if isinstance(e, ast.IfExp):
+            out += self.expr(e.test, ltypes)
+            self._guards.append(self._attrs_in(e.test))
+            out += self.expr(e.body, ltypes) + self.expr(e.orelse, ltypes)
+            self._guards.pop()
+            return out
         if isinstance(e, ast.Call):
             d = _dyn_attr(e)
             if d is not None:
@@ -499,15 +542,23 @@ class Extractor:
             if isinstance(f, ast.Name):
                 r = self.mod.resolve(f.id)
                 if r:
-                    out += [('Glob', g) for g in sorted(self.globs_of(r[0], r[1]))]
-            elif isinstance(f, ast.Attribute) and isinstance(f.value, ast.Name) and f.value.id in ltypes:
-                m2, c2 = ltypes[f.value.id]
-                meth = next((g for g in c2.body if isinstance(g, ast.FunctionDef) and g.name == f.attr), None)
-                if meth is not None:
-                    out += [('Glob', g) for g in sorted(self._globs_of_method(m2, c2, meth, 1))]
+                    out += [('Glob', self._g(g)) for g in sorted(self.globs_of(r[0], r[1], dataless=isinstance(r[1], ast.ClassDef) and self._dataless(e)))]
+            elif isinstance(f, ast.Attribute):
+                owner = None
+                if isinstance(f.value, ast.Name) and f.value.id in ltypes:
+                    owner = ltypes[f.value.id]                                   # v = Class(..); v.meth(..)
+                elif isinstance(f.value, ast.Call) and isinstance(f.value.func, ast.Name):
+                    r = self.mod.resolve(f.value.func.id)                        # Class(..).meth(..)
+                    if r and isinstance(r[1], ast.ClassDef):
+                        owner = r
+                if owner is not None:
+                    m2, c2 = owner
+                    meth = next((g for g in c2.body if isinstance(g, ast.FunctionDef) and g.name == f.attr), None)
+                    if meth is not None:
+                        out += [('Glob', self._g(g)) for g in sorted(self._globs_of_method(m2, c2, meth, 1))]
             return out
         if _is_random_chain(e):
-            return [('Glob', 'np.random')]
+            return [('Glob', self._g('np.random'))]
         if _self_attr(e):
             return [('Rd', e.attr)]
         if isinstance(e, ast.Name):
@@ -604,9 +655,11 @@ class Extractor:
         if isinstance(s, ast.If):
             tst = E(s.test)
             f0 = set(self._fresh)
+            self._guards.append(self._attrs_in(s.test))
             b1 = self.stmts(s.body, ltypes)
             f1, self._fresh = self._fresh, set(f0)
             b2 = self.stmts(s.orelse, ltypes)
+            self._guards.pop()
             self._fresh = f1 & self._fresh
             return seq(tst + [('If', b1, b2)])
         if isinstance(s, (ast.While, ast.For, ast.Try, ast.With)):
@@ -901,7 +954,7 @@ class Extractor:
             if isinstance(f, ast.Name):
                 r = self.mod.resolve(f.id)
                 if r:
-                    out |= {('G', g) for g in self.globs_of(r[0], r[1])}
+                    out |= {('G', g) for g in self.globs_of(r[0], r[1], dataless=isinstance(r[1], ast.ClassDef) and self._dataless(e))}
             return out
         if _is_random_chain(e):
             return {('G', 'np.random')}
@@ -1033,57 +1086,194 @@ class Extractor:
         return rets
 
     # ---- the loops of _compute_all -------------------------------------------------------------------------
+    # ---- local names of _compute_all that stand for constructor attributes ------------------------------------------------
+    #   x = self.a | np.copy/np.array/np.asarray/np.ascontiguousarray(self.a) | another such local      -> ('attr', a)
+    #   x = (self.a, self.b, ..) | [..]  (elements as above)                                            -> ('tuple', (a, b, ..))
+    #   x = <one of these> if <any test> else <one of these>                                             -> both alternatives
+    #   a, b, c = <tuple of these>                                                                       -> element-wise
+    # A name with ANY other assignment in the function (or that is a loop / comprehension / with / except target) is unknown:
+    # arguments mentioning it are not understood and the loop counts as bad (fail closed).
+    COPY_FUNCS = ('copy', 'array', 'asarray', 'ascontiguousarray', 'asanyarray')
+
+    def _local_env(self, fn):
+        env, unknown = {}, set()
+
+        def alts(v, depth=0):
+            """alternatives a value expression may denote, or None when it is not understood"""
+            if depth > 6:
+                return None
+            if _self_attr(v):
+                return {('attr', v.attr)}
+            if isinstance(v, ast.Name):
+                return set(env[v.id]) if v.id in env and v.id not in unknown else None
+            if isinstance(v, ast.Call) and isinstance(v.func, ast.Attribute) and isinstance(v.func.value, ast.Name) \
+                    and v.func.value.id in ('np', 'numpy') and v.func.attr in self.COPY_FUNCS and len(v.args) == 1 and not v.keywords:
+                inner = alts(v.args[0], depth + 1)
+                return inner if inner is not None and all(k == 'attr' for k, _ in inner) else None
+            if isinstance(v, (ast.Tuple, ast.List)):
+                elems = []
+                for e in v.elts:
+                    a = alts(e, depth + 1)
+                    if a is None or len(a) != 1 or next(iter(a))[0] != 'attr':
+                        return None
+                    elems.append(next(iter(a))[1])
+                return {('tuple', tuple(elems))}
+            if isinstance(v, ast.IfExp):
+                a, b = alts(v.body, depth + 1), alts(v.orelse, depth + 1)
+                return (a | b) if a is not None and b is not None else None
+            return None
+
+        assigns = []
+        for n in ast.walk(fn):
+            if isinstance(n, ast.Assign):
+                for t in n.targets:
+                    assigns.append((t, n.value))
+            elif isinstance(n, ast.AnnAssign) and n.value is not None:
+                assigns.append((n.target, n.value))
+            elif isinstance(n, (ast.AugAssign,)):
+                for x in ast.walk(n.target):
+                    if isinstance(x, ast.Name):
+                        unknown.add(x.id) if not isinstance(n.target, ast.Subscript) else None
+            elif isinstance(n, (ast.For, ast.comprehension)):
+                for x in ast.walk(n.target):
+                    if isinstance(x, ast.Name):
+                        unknown.add(x.id)
+            elif isinstance(n, ast.withitem) and n.optional_vars is not None:
+                for x in ast.walk(n.optional_vars):
+                    if isinstance(x, ast.Name):
+                        unknown.add(x.id)
+            elif isinstance(n, ast.ExceptHandler) and n.name:
+                unknown.add(n.name)
+            elif isinstance(n, (ast.Global, ast.Nonlocal)):
+                unknown |= set(n.names)
+        for _ in range(3):                                 # a few rounds: locals defined from earlier locals
+            for t, v in assigns:
+                if isinstance(t, ast.Name):
+                    a = alts(v)
+                    if a is None:
+                        if t.id not in env:
+                            pass
+                        continue
+                    env.setdefault(t.id, set()).update(a)
+                elif isinstance(t, (ast.Tuple, ast.List)) and isinstance(v, (ast.Tuple, ast.List)) and len(t.elts) == len(v.elts):
+                    for x, y in zip(t.elts, v.elts):
+                        if isinstance(x, ast.Name):
+                            a = alts(y)
+                            if a is not None:
+                                env.setdefault(x.id, set()).update(a)
+        # a name is understood only if EVERY assignment to it is understood
+        for t, v in assigns:
+            pairs = []
+            if isinstance(t, ast.Name):
+                pairs = [(t, v)]
+            elif isinstance(t, (ast.Tuple, ast.List)):
+                if isinstance(v, (ast.Tuple, ast.List)) and len(t.elts) == len(v.elts):
+                    pairs = [(x, y) for x, y in zip(t.elts, v.elts) if isinstance(x, ast.Name)]
+                    for x in t.elts:
+                        if not isinstance(x, ast.Name):
+                            for y in ast.walk(x):
+                                if isinstance(y, ast.Name) and isinstance(y.ctx, ast.Store):
+                                    unknown.add(y.id)
+                else:
+                    for x in ast.walk(t):
+                        if isinstance(x, ast.Name):
+                            unknown.add(x.id)
+            for x, y in pairs:
+                if alts(y) is None:
+                    unknown.add(x.id)
+        for p in fn.args.posonlyargs + fn.args.args + fn.args.kwonlyargs:
+            unknown.add(p.arg)
+        return {k: v for k, v in env.items() if k not in unknown}
+
+    def _attr_of(self, node, env):
+        """node denotes exactly one constructor attribute -> its name, else None"""
+        if _self_attr(node):
+            return node.attr
+        if isinstance(node, ast.Name) and node.id in env and len(env[node.id]) == 1:
+            k, a = next(iter(env[node.id]))
+            return a if k == 'attr' else None
+        return None
+
     def loops(self, data_attrs):
         fn = self.methods.get(COMPUTE_ALL)
         good, bad, notes = [], 0, []
         if fn is None:
             return good, 1, ['no _compute_all']
+        env = self._local_env(fn)
+        consumed = set()                                   # comprehensions that are the *[x[t] for x in sensors] argument of a loop
+        loops_found = [n for n in ast.walk(fn) if isinstance(n, (ast.For, ast.While))]
+        for n in loops_found:
+            lfs = self._loop_fact(n, env, consumed) if isinstance(n, ast.For) else None
+            if not lfs:
+                bad += 1
+                notes.append(f'line {n.lineno}: loop not of the shape Q[t] = self.update(Q[t-1], self.data[t], ...)')
+            else:
+                good += lfs
         for n in ast.walk(fn):
-            if isinstance(n, (ast.For, ast.While)):
-                lf = self._loop_fact(n) if isinstance(n, ast.For) else None
-                if lf is None:
-                    bad += 1
-                    notes.append(f'line {n.lineno}: loop not of the shape Q[t] = self.update(Q[t-1], self.data[t], ...)')
-                else:
-                    good.append(lf)
-            elif isinstance(n, (ast.ListComp, ast.GeneratorExp)):
-                lf = self._comp_fact(n)
-                if lf is None:
+            if isinstance(n, (ast.ListComp, ast.GeneratorExp)) and id(n) not in consumed:
+                lfs = self._comp_fact(n, env)
+                if not lfs:
                     bad += 1
                     notes.append(f'line {n.lineno}: comprehension not of the shape [self.estimate(self.data[t], ...) for t in range(N)]')
                 else:
-                    good.append(lf)
+                    good += lfs
             elif isinstance(n, ast.Assign) and any(_is_row0(t) for t in n.targets):
                 # the initial row: may use q0, estimators and sample 0 of the data only
                 for x in ast.walk(n.value):
-                    if isinstance(x, ast.Subscript) and _self_attr(x.value) and x.value.attr in data_attrs:
-                        if not (isinstance(x.slice, ast.Constant) and x.slice.value == 0):
+                    if isinstance(x, ast.Subscript):
+                        a = self._attr_of(x.value, env)
+                        if a in data_attrs and not (isinstance(x.slice, ast.Constant) and x.slice.value == 0):
                             bad += 1
                             notes.append(f'line {n.lineno}: initial row reads data beyond sample 0')
         return good, bad, notes
 
-    def _args_fact(self, call, var):
-        """arguments of self.m(...) in a loop over `var` -> (prev, data, extra) or None"""
-        prev, data, extra = False, [], []
+    def _args_fact(self, call, var, env, consumed):
+        """arguments of self.m(...) in a loop over `var` -> list of alternatives (prev, data, extra), [] when not understood"""
+        prev, extra = False, []
+        data_alts = [[]]
         for i, a in enumerate(call.args):
             if isinstance(a, ast.Subscript) and isinstance(a.value, ast.Name) and i == 0 and isinstance(a.slice, ast.BinOp) \
                     and isinstance(a.slice.op, ast.Sub) and isinstance(a.slice.left, ast.Name) and a.slice.left.id == var \
-                    and isinstance(a.slice.right, ast.Constant) and a.slice.right.value == 1:
+                    and isinstance(a.slice.right, ast.Constant) and a.slice.right.value == 1 and a.value.id not in env:
                 prev = a.value.id
-            elif isinstance(a, ast.Subscript) and _self_attr(a.value) and isinstance(a.slice, ast.Name) and a.slice.id == var:
-                data.append(a.value.attr)
-            elif _self_attr(a):
-                extra.append(a.attr)
+            elif isinstance(a, ast.Subscript) and isinstance(a.slice, ast.Name) and a.slice.id == var and self._attr_of(a.value, env):
+                data_alts = [d + [self._attr_of(a.value, env)] for d in data_alts]
+            elif self._attr_of(a, env):
+                extra.append(self._attr_of(a, env))
+            elif isinstance(a, ast.Starred) and isinstance(a.value, (ast.ListComp, ast.GeneratorExp)):
+                # *[s[t] for s in sensors]  with sensors a (conditional) tuple of constructor attributes
+                c = a.value
+                if len(c.generators) != 1 or c.generators[0].ifs or not isinstance(c.generators[0].target, ast.Name):
+                    return []
+                ev = c.generators[0].target.id
+                elt = c.elt
+                if not (isinstance(elt, ast.Subscript) and isinstance(elt.value, ast.Name) and elt.value.id == ev
+                        and isinstance(elt.slice, ast.Name) and elt.slice.id == var):
+                    return []
+                it = c.generators[0].iter
+                if isinstance(it, ast.Name) and it.id in env:
+                    tuples = [t for k, t in env[it.id] if k == 'tuple']
+                    if len(tuples) != len(env[it.id]):
+                        return []
+                elif isinstance(it, (ast.Tuple, ast.List)):
+                    elems = [self._attr_of(e, env) for e in it.elts]
+                    if not elems or any(e is None for e in elems):
+                        return []
+                    tuples = [tuple(elems)]
+                else:
+                    return []
+                data_alts = [d + list(t) for d in data_alts for t in sorted(tuples)]
+                consumed.add(id(c))
             else:
-                return None
+                return []
         for k in call.keywords:
-            if k.arg is not None and _self_attr(k.value):
-                extra.append(k.value.attr)
+            if k.arg is not None and self._attr_of(k.value, env):
+                extra.append(self._attr_of(k.value, env))
             else:
-                return None
-        return prev, data, extra
+                return []
+        return [(prev, d, list(extra)) for d in data_alts]
 
-    def _loop_fact(self, n):
+    def _loop_fact(self, n, env, consumed):
         if not (isinstance(n.target, ast.Name) and isinstance(n.iter, ast.Call) and isinstance(n.iter.func, ast.Name)
                 and n.iter.func.id == 'range' and not n.orelse and len(n.body) == 1 and isinstance(n.body[0], ast.Assign)):
             return None
@@ -1100,15 +1290,14 @@ class Extractor:
         c = st.value
         if not (isinstance(c, ast.Call) and _self_attr(c.func) and c.func.attr in self.methods):
             return None
-        af = self._args_fact(c, var)
-        if af is None:
-            return None
-        prev, data, extra = af
-        if prev not in (False, arr):
-            return None
-        return {'callee': c.func.attr, 'lo': lo, 'prev': bool(prev), 'data': data, 'extra': extra}
+        out = []
+        for prev, data, extra in self._args_fact(c, var, env, consumed):
+            if prev not in (False, arr):
+                return None
+            out.append({'callee': c.func.attr, 'lo': lo, 'prev': bool(prev), 'data': data, 'extra': extra})
+        return out
 
-    def _comp_fact(self, n):
+    def _comp_fact(self, n, env):
         if len(n.generators) != 1:
             return None
         g = n.generators[0]
@@ -1118,10 +1307,12 @@ class Extractor:
         c = n.elt
         if not (isinstance(c, ast.Call) and _self_attr(c.func) and c.func.attr in self.methods):
             return None
-        af = self._args_fact(c, g.target.id)
-        if af is None or af[0]:
-            return None
-        return {'callee': c.func.attr, 'lo': 0, 'prev': False, 'data': af[1], 'extra': af[2]}
+        out = []
+        for prev, data, extra in self._args_fact(c, g.target.id, env, set()):
+            if prev:
+                return None
+            out.append({'callee': c.func.attr, 'lo': 0, 'prev': False, 'data': data, 'extra': extra})
+        return out
 
 
 def _is_row0(t):
@@ -1134,9 +1325,12 @@ def _copy(node):
 
 
 # ------------------------------------------------------------------------------------------ facts and Gallina
-def extract(repo, relpath, clsname, updates, carried):
+def extract(repo, relpath, clsname, updates, carried, rng_guard='q0'):
+    """rng_guard: the attribute whose test (`self.q0 is None`) licenses a draw from the NumPy global generator inside this class's
+    methods; None for a class whose entry point is a recorded RNG user by nature (OLEQ)"""
     pkg = Package(os.path.join(repo, 'ahrs'))
     ex = Extractor(pkg, relpath, clsname)
+    ex.rng_guard = rng_guard
     init = ex.methods.get('__init__')
     params = [a.arg for a in (init.args.posonlyargs + init.args.args + init.args.kwonlyargs)] if init else []
     dparams = [p for p in params if p in DATA_PARAMS] + ['__compute_all__']
